@@ -113,6 +113,7 @@ package schema
 //@ nonnil *StepOutputSchema
 //@ nonnil Object
 //@ nonnil CallableStep
+//@ nonnil Type
 //@ nonnil *StepSchema
 //@ invariant StepSchema(s): s.InputValue != nil
 //@ nonnil CallableSignal
@@ -824,3 +825,36 @@ package schema
 //@   assigns nothing
 //@ interface Object.GetDefaults(this) -> res
 //@   names res != nil
+
+// ---------------------------------------------------------------------------------------------
+// C18: functions. reflect.Type of a func is modelled by t_numin / t_in / t_numout / t_out over type identities.
+// ---------------------------------------------------------------------------------------------
+
+//@ abstract reflT(t Type) TypeTag
+//@ interface Type.ReflectedType(this) -> res
+//@   names rtag(res) == reflT(this)
+
+//@ func validateInputTypeCompatibility(inputs, handler) -> err
+//@   ensures (err == nil) == (rv_valid(handler) && kind(rv_type(handler)) == KindFunc && len(inputs) == t_numin(rv_type(handler)) && (forall j int :: 0 <= j && j < len(inputs) ==> reflT(inputs[j]) == t_in(rv_type(handler), j)))
+//@   loop 1 invariant 0 <= i && (forall j int :: 0 <= j && j < i ==> reflT(inputs[j]) == t_in(rv_type(handler), j))
+
+//@ spec retOK(ft TypeTag, errorExpected bool, outputType Type) bool = t_numout(ft) == (outputType != nil ? 1 : 0) + (errorExpected ? 1 : 0) && (errorExpected ==> t_out(ft, t_numout(ft) - 1) == type(error)) && (outputType != nil ==> reflT(outputType) == t_out(ft, 0))
+//@ func validateTypedReturnFunc(parsedHandler, errorExpected, outputType) -> err
+//@   requires rv_valid(parsedHandler) && kind(rv_type(parsedHandler)) == KindFunc
+//@   ensures (err == nil) == retOK(rv_type(parsedHandler), errorExpected, outputType)
+
+//@ func NewCallableFunction(id, inputs, output, outputsError, display, handler) -> res, err
+//@   ensures (err == nil) == (handler != nil && kindOf(handler) == KindFunc && len(inputs) == t_numin(typeOf(handler)) && (forall j int :: 0 <= j && j < len(inputs) ==> reflT(inputs[j]) == t_in(typeOf(handler), j)) && retOK(typeOf(handler), outputsError, output))
+//@   ensures err == nil ==> res != nil
+
+//@ func NewDynamicCallableFunction(id, inputs, display, handler, typeHandler) -> res, err
+//@   ensures (err == nil) == (handler != nil && kindOf(handler) == KindFunc && len(inputs) == t_numin(typeOf(handler)) && (forall j int :: 0 <= j && j < len(inputs) ==> reflT(inputs[j]) == t_in(typeOf(handler), j)) && t_numout(typeOf(handler)) == 2 && t_out(typeOf(handler), 1) == type(error) && kind(t_out(typeOf(handler), 0)) == KindInterface)
+
+//@ spec expectedRets(f CallableFunctionSchema) int = (f.StaticOutputValue != nil || f.DynamicTypeHandler != nil) ? 1 : 0
+//@ func CallableFunctionSchema.Call(f, arguments) -> res, err
+//@   requires rv_valid(f.Handler) && kind(rv_type(f.Handler)) == KindFunc && !rv_isnil(f.Handler)
+//@   requires t_numout(rv_type(f.Handler)) == expectedRets(f) + 1 ==> t_out(rv_type(f.Handler), expectedRets(f)) == type(error)
+//@   requires forall j int :: 0 <= j && j < len(arguments) ==> arguments[j] != nil && (typeOf(arguments[j]) == t_in(rv_type(f.Handler), j) || kind(t_in(rv_type(f.Handler), j)) == KindInterface)
+//@   loop 1 invariant 0 <= i && len(args) == len(arguments) && fresh(args) && (forall j int :: 0 <= j && j < i ==> args[j] == rv_of(arguments[j]))
+//@   ensures len(arguments) != t_numin(rv_type(f.Handler)) ==> typeOf(err) == type(*FunctionCallError) && !err.(*FunctionCallError).IsFunctionReportedError && ghost("rvcalls") == old(ghost("rvcalls"))
+//@   ensures len(arguments) == t_numin(rv_type(f.Handler)) ==> ghost("rvcalls") == old(ghost("rvcalls")) + 1
